@@ -194,6 +194,13 @@ func init() {
 						v, class = []string{"", "abc", "1d", "10", "1h-", "١s", "1 h", "h1"}[r.Intn(8)], "unparsable"
 					case 6:
 						v, class = fmt.Sprintf("%dh", r.Intn(24*36500)), "hours-to-100y"
+						if r.Chance(1, 3) {
+							// other spellings time.ParseDuration accepts for the same value: leading zeros, an explicit plus sign
+							n := r.Pick(8, 9, 10, 17, 24, 64, 100, 600, 777, r.Intn(100000))
+							unit := []string{"h", "m", "s"}[r.Intn(3)]
+							v = fmt.Sprintf([]string{"0%d%s", "00%d%s", "%04d%s", "%06d%s", "+%d%s", "+0%d%s"}[r.Intn(6)], n, unit)
+							class = "zero-padded-or-signed"
+						}
 					default:
 						v, class = fmt.Sprintf("%dh%ds", 24*r.Intn(40), r.Intn(3)), "day-multiples"
 					}
@@ -225,6 +232,9 @@ func init() {
 					n := r.Range(2, 10)
 					now := nows(r)
 					pattern := ""
+					// strings the caller still holds: each must read at the end as it did when it was returned
+					type kept struct{ s, copy, what string }
+					var held []kept
 					for i := 0; i < n; i++ {
 						v := pool[r.Intn(len(pool))]
 						rel := r.Bool()
@@ -233,8 +243,17 @@ func init() {
 						}
 						d, err := time.ParseDuration(v)
 						c19Forms(c, now, v, d, err == nil, "sequence", []bool{rel})
+						if out, e := smpp.ToValidatePeriod(now, v, rel); e == nil && out != "" {
+							held = append(held, kept{out, string(append([]byte(nil), out...)), fmt.Sprintf("ToValidatePeriod(%s, %q, relative=%v)", now.UTC().Format(time.RFC3339), v, rel)})
+						}
 						if i < 3 {
 							pattern += map[bool]string{true: "R", false: "A"}[rel]
+						}
+					}
+					for _, k := range held {
+						if k.s != k.copy {
+							c.Failf("result-changed-by-later-call", "the string %s returned read %q then and reads %q after the later calls of the sequence", k.what, k.copy, k.s)
+							break
 						}
 					}
 					c.Cover("sequence/" + pattern)
